@@ -278,8 +278,11 @@ func (l *WAL) Switch() (*WalFiles, error) {
 	for i := 0; i < l.partitionNum; i++ {
 		go func(lw *LogWriter) {
 			files, err := lw.Switch()
-			errs.Dispatch(err)
+			// register the closed files before signalling completion: Dispatch releases the
+			// waiter in errs.Err(), and files added after Switch has returned would be missed
+			// by RemoveWalFiles, stay on disk and be replayed over newer data at the next start
 			walFiles.Add(files...)
+			errs.Dispatch(err)
 		}(&l.logWriter[i])
 	}
 
